@@ -45,7 +45,7 @@ type c05cfg struct {
 }
 
 func c05Configs(tier string, seed int64) []c05cfg {
-	srcs := []Recipe{{Kind: "fixture", Name: "tf-main"}, {Kind: "fixture", Name: "tf-unicode"},
+	srcs := []Recipe{{Kind: "fixture", Name: "tf-main"}, {Kind: "fixture", Name: "tf-unicode"}, {Kind: "fixture", Name: "tf-typedecls"}, {Kind: "fixture", Name: "tf-twofiles"},
 		{Kind: "gen", Seed: seed*100000 + 2, Opt: "deps"}, {Kind: "gen", Seed: seed*100000 + 6, Opt: "hooks,deps"}, {Kind: "gen", Seed: seed*100000 + 4, Opt: "deps,refs"}}
 	reps, ops := 1, 120
 	if tier == "thorough" {
